@@ -69,6 +69,21 @@ def compute_ctc3(mm):
     return compute_ctc(mm, fl_channel=3)
 
 
+def crosstalk_config(mm):
+    """Identify all crosstalk matrix elements defined for a dataset
+
+    All matrix elements that are defined in the configuration are used
+    in :func:`compute_ctc`, not only those that are required for a
+    specific combination of fluorescence channels. Return a string
+    (instead of `True`) identifying them, such that cached feature data
+    are discarded when one of them changes.
+    """
+    calccfg = mm.config["calculation"]
+    return "crosstalk; " + "; ".join(
+        [f"fl{i}{j}={calccfg.get(f'crosstalk fl{i}{j}')}"
+         for i in [1, 2, 3] for j in [1, 2, 3] if i != j])
+
+
 def get_method(fl_channel):
     if fl_channel == 1:
         return compute_ctc1
@@ -109,6 +124,7 @@ def register():
                          method=get_method(flch),
                          req_features=opts_all[0],
                          req_config=[["calculation", opts_all[1]]],
+                         req_func=crosstalk_config,
                          priority=1)
 
     for flch in [1, 2]:
@@ -116,6 +132,7 @@ def register():
                          method=get_method(flch),
                          req_features=opts_12[0],
                          req_config=[["calculation", opts_12[1]]],
+                         req_func=crosstalk_config,
                          priority=0)
 
     for flch in [1, 3]:
@@ -123,6 +140,7 @@ def register():
                          method=get_method(flch),
                          req_features=opts_13[0],
                          req_config=[["calculation", opts_13[1]]],
+                         req_func=crosstalk_config,
                          priority=0)
 
     for flch in [2, 3]:
@@ -130,4 +148,5 @@ def register():
                          method=get_method(flch),
                          req_features=opts_23[0],
                          req_config=[["calculation", opts_23[1]]],
+                         req_func=crosstalk_config,
                          priority=0)
